@@ -225,6 +225,9 @@ def build_md(case, prefix):
             xlp.update({"max_rank": 2, "err_threshold": 0.0, "T_el": 1500})
         cls = MDmod.XL_BOMD if eng == "xl" else MDmod.KSA_XL_BOMD
         md = cls(damp=case.get("damp", None), xl_bomd_params=xlp, **common)
+    elif eng == "xlesmd":
+        # extended-Lagrangian excited-state MD: a second history buffer (transition densities) next to the density one
+        md = MDmod.XL_ESMD(damp=case.get("damp", None), xl_bomd_params={"k": int(case.get("k", 5))}, **common)
     elif eng == "fssh":
         from seqm.NonadiabaticDynamics import SurfaceHoppingDynamics
 
